@@ -205,7 +205,7 @@ def gen_history(rng, maxlen):
         else:
             opk = rng.choices(["unmarshal", "marshal", "encode", "decode", "cencode", "cdecode"],
                               [40, 22, 9, 12, 5, 6])[0]
-            if opk in ("cencode", "cdecode") and root_bytes(t):
+            if opk in ("encode", "decode", "cencode", "cdecode") and root_bytes(t):   # identity coder, not JSON
                 opk = "unmarshal"
             if held and rng.random() < 0.4:
                 t0, opk, x, j = rng.choice(held)
